@@ -1,6 +1,7 @@
 import BM.Shipped
 import BM.Proofs.Escape
 import BM.Proofs.Step
+import BM.Proofs.RoundTrip
 /-
   C04 (Strict half): for every input, StrictPolicy returns text with no markup at all.
   Proved for the model at byte level, which is stronger than the tokenizer-level reading:
@@ -11,6 +12,7 @@ open BM BM.Html
 
 /-- a policy that allows no element at all, keeps no comments and inserts no spaces -/
 structure Bare (p : Policy) : Prop where
+  inited : p.initialized = true
   els : p.elsAndAttrs = []
   elsm : p.elsMatchingAndAttrs = []
   comments : p.allowComments = false
@@ -19,6 +21,9 @@ structure Bare (p : Policy) : Prop where
 
 theorem bare_attrRulesFor {p : Policy} (h : Bare p) (el : Bytes) : p.attrRulesFor el = none := by
   simp [Policy.attrRulesFor, Policy.matchRegex, h.els, h.elsm, Map.get?]
+
+theorem bare_ensureInit {p : Policy} (h : Bare p) : p.ensureInit = p := by
+  simp [Policy.ensureInit, h.inited]
 
 theorem bare_space {p : Policy} (h : Bare p) : p.space = [] := by
   simp [Policy.space, h.spaces]
@@ -56,7 +61,7 @@ theorem bare_run_writes {p : Policy} (h : Bare p) (ts : List Token) :
 theorem bare_no_markup {p : Policy} (h : Bare p) (input : Bytes) :
     ∀ c ∈ p.sanitizeCore input, c ≠ 60 ∧ c ≠ 62 := by
   intro c hc
-  simp only [Policy.sanitizeCore, Policy.sanitizeTokens, List.mem_flatten, List.mem_map] at hc
+  simp only [Policy.sanitizeCore, bare_ensureInit h, Policy.sanitizeTokens, List.mem_flatten, List.mem_map] at hc
   obtain ⟨l, ⟨w, hw, rfl⟩, hcl⟩ := hc
   obtain ⟨d, hd⟩ := bare_run_writes h (tokenize input) {} w hw
   rw [hd] at hcl
@@ -64,12 +69,49 @@ theorem bare_no_markup {p : Policy} (h : Bare p) (input : Bytes) :
   exact ⟨this.1, this.2.1⟩
 
 theorem strict_is_bare : Bare strictPolicy :=
-  ⟨rfl, rfl, rfl, rfl, rfl⟩
+  ⟨rfl, rfl, rfl, rfl, rfl, rfl⟩
 
 /-- **C04, Strict**: `StrictPolicy().Sanitize*` never emits `<` or `>` (non-blank input). -/
 theorem C04_strict_no_markup (input : Bytes) :
     ∀ c ∈ strictPolicy.sanitizeCore input, c ≠ 60 ∧ c ≠ 62 :=
   bare_no_markup strict_is_bare input
+
+/-- the whole output of a bare policy is the escaping of one string (the visible text) -/
+theorem bare_output_escape {p : Policy} (h : Bare p) (input : Bytes) :
+    ∃ D, p.sanitizeCore input = escape D := by
+  have hw := bare_run_writes h (tokenize input) {}
+  unfold Policy.sanitizeCore Policy.sanitizeTokens
+  rw [bare_ensureInit h]
+  generalize (p.run {} (tokenize input)).1 = ws at hw
+  induction ws with
+  | nil => exact ⟨[], rfl⟩
+  | cons w ws ih =>
+    obtain ⟨d, hd⟩ := hw w (by simp)
+    obtain ⟨D, hD⟩ := ih (fun w' hw' => hw w' (by simp [hw']))
+    refine ⟨d ++ D, ?_⟩
+    simp only [List.map_cons, List.flatten_cons, hd, hD, escape_append]
+
+/-- what a bare policy does to an already escaped text: it reads it as one text token and
+    writes the same escaping again -/
+theorem bare_on_escaped {p : Policy} (h : Bare p) (D : Bytes) : p.sanitizeCore (escape D) = escape D := by
+  by_cases hD : D = []
+  · subst hD
+    simp [Policy.sanitizeCore, Policy.sanitizeTokens, escape, tokenize, tokenizeAux, next, Policy.run]
+  · rw [Policy.sanitizeCore, bare_ensureInit h, tokenize_escape D hD]
+    have hstep : p.step {} ⟨.text, D, []⟩ = some ({}, [⟨escape D⟩]) := by
+      simp [Policy.step, Policy.stepText, isScriptOrStyle, Token.render]
+    simp [Policy.sanitizeTokens, Policy.run, hstep]
+
+/-- **C20 for Strict (and every bare policy), byte level**: sanitising the output again
+    changes nothing — escaping is not applied twice -/
+theorem bare_idempotent {p : Policy} (h : Bare p) (input : Bytes) :
+    p.sanitizeCore (p.sanitizeCore input) = p.sanitizeCore input := by
+  obtain ⟨D, hD⟩ := bare_output_escape h input
+  rw [hD]; exact bare_on_escaped h D
+
+theorem C20_strict_idempotent (input : Bytes) :
+    strictPolicy.sanitizeCore (strictPolicy.sanitizeCore input) = strictPolicy.sanitizeCore input :=
+  bare_idempotent strict_is_bare input
 
 /-- non-vacuity: the theorem speaks about a run that really writes something -/
 example : strictPolicy.sanitizeCore b!"<b>1 < 2</b>" = b!"1 &lt; 2" := by decide
